@@ -103,6 +103,24 @@ var pkgInitEntrySpec = &decideSpec{
 	},
 }
 
+// RootConfig.Initialize: one iteration of the loop over the configured packages (trace mode)
+var rootInitEntrySpec = &decideSpec{
+	file: "config/config.go", recv: "RootConfig", fn: "Initialize", lean: "rootInitializeEntryEffects", plain: true, loopBody: true,
+	params: "(pkgIsNil configIsNil interfacesIsNil recursive : Bool)", result: "List String",
+	atoms: map[string]string{"pkgConfig == nil": "pkgIsNil", "pkgConfig.Config == nil": "configIsNil", "pkgConfig.Interfaces == nil": "interfacesIsNil",
+		"*pkgConfig.Config.Recursive": "recursive"},
+	trace: map[string]string{
+		"pkgConfig = NewPackageConfig()":                     "pkg := new",
+		"c.Packages[pkgName] = pkgConfig":                    "store pkg",
+		"pkgConfig.Config = &Config{}":                       "pkg.config := {}",
+		"pkgConfig.Interfaces = map[string]*InterfaceConfig{}": "pkg.interfaces := {}",
+		"mergeConfigs(pkgCtx, c.Config, pkgConfig.Config)":   "merge top-level config into pkg.config",
+		"if err := pkgConfig.Initialize(pkgCtx); err != nil { return fmt.Errorf(\"initializing root config: %w\", err) }": "initialize pkg",
+		"recursivePackages = append(recursivePackages, pkgName)": "mark recursive",
+	},
+	ignore: []string{"log", "pkgLog"},
+}
+
 // ---- mergeStringMaps ----
 
 type mapTr struct {
@@ -254,7 +272,7 @@ func init() {
 			g = fmt.Sprintf("/-- translation failed: %s -/\ndef getReplacement : Nat := (show Nat from %s)\n", strings.ReplaceAll(err.Error(), "-/", "- /"), leanStr(err.Error()))
 		}
 		b.WriteString(g + "\n")
-		for _, sp := range []*decideSpec{ifaceInitSpec, ifaceInitEntrySpec, pkgInitEntrySpec} {
+		for _, sp := range []*decideSpec{ifaceInitSpec, ifaceInitEntrySpec, pkgInitEntrySpec, rootInitEntrySpec} {
 			d, err := translateDecide(src, sp)
 			if err != nil {
 				d = fmt.Sprintf("/-- translation failed: %s -/\ndef %s %s : %s :=\n  (show Nat from %s)\n", strings.ReplaceAll(err.Error(), "-/", "- /"), sp.lean, sp.params, sp.result, leanStr(err.Error()))
